@@ -312,7 +312,8 @@ def match_fns(base, cur_fns, al):
                 if a_ != b_:
                     break
                 common += 1
-            if not same_file and common < 3:
+            same_name = o.rsplit("::", 1)[-1] == n.rsplit("::", 1)[-1]
+            if not same_file and common < 3 and not (same_name and common >= 2):     # (a plain move into a new submodule keeps the name)
                 continue
             if n not in fps:
                 fps[n] = fn_fingerprint(f_n)
